@@ -153,4 +153,29 @@ def ArcInst.decodeAsserts (I : ArcInst) (x : List Rat) : Bool :=
   sel.all (fun u => decide (I.g.lo u.2.2.1 ≤ u.2.2.2) && leE u.2.2.2 (I.g.hi u.2.2.1)) &&
   (List.range (I.g.nodes.length - 1)).all fun k => (sel.filter fun u => u.2.2.1 = k + 1).length = 1
 
+/-! ### list-parameterised decoder
+
+The same loops as `ArcInst.decode` / `ArcInst.decodeAsserts`, but on an explicitly given list of selected tuples (so
+that a caller can supply tuples read from a CACHE).  The two existing functions are unchanged;
+`VrpProofs/Lemmas/CacheFlags.lean` proves `I.decode x = arcDecodeTuples (I.selected x)` and
+`I.decodeAsserts x = arcAssertsTuples I.g (I.selected x)`. -/
+
+/-- `while len(tuples_ordered) > 0:` on an already sorted tuple list (the loop `go` of `ArcInst.decode`) -/
+def arcDecodeGo : Nat → List ATup → List (List (Nat × Rat)) → List (List (Nat × Rat))
+  | 0, _, acc => acc
+  | _ + 1, [], acc => acc
+  | fuel + 1, arc :: rest, acc =>
+    let r := followArc rest.length arc rest []
+    arcDecodeGo fuel r.2 (acc ++ [r.1])
+
+/-- `get_routes` from the point where `soln_var_tuples` is complete: lexicographic sort, then route construction -/
+def arcDecodeTuples (sel : List ATup) : List (List (Nat × Rat)) :=
+  let ts := sortA sel
+  arcDecodeGo ts.length ts []
+
+/-- the assertions of `get_routes` on a given list of selected tuples -/
+def arcAssertsTuples (g : Graph) (sel : List ATup) : Bool :=
+  sel.all (fun u => decide (g.lo u.2.2.1 ≤ u.2.2.2) && leE u.2.2.2 (g.hi u.2.2.1)) &&
+  (List.range (g.nodes.length - 1)).all fun k => (sel.filter fun u => u.2.2.1 = k + 1).length = 1
+
 end Vrp
